@@ -272,6 +272,17 @@ def rule_order(ctx, px):
     calls = [(c.lineno, c.func.attr) for c in ast.walk(f.node) if isinstance(c, ast.Call) and isinstance(c.func, ast.Attribute)
              and isinstance(c.func.value, ast.Name) and c.func.value.id in bnames]
     names = [a for _, a in sorted(calls)]
+    # a fluent chain `Builder(...).set_x(..).add_config_files(..).create()` is the same sequence, innermost call first
+    inner_ids = {id(c_.func.value) for c_ in ast.walk(f.node) if isinstance(c_, ast.Call) and isinstance(c_.func, ast.Attribute) and isinstance(c_.func.value, ast.Call)}
+    for c_ in ast.walk(f.node):
+        if isinstance(c_, ast.Call) and isinstance(c_.func, ast.Attribute) and id(c_) not in inner_ids and isinstance(c_.func.value, ast.Call):
+            seq_, cur_ = [], c_
+            while isinstance(cur_, ast.Call) and isinstance(cur_.func, ast.Attribute):
+                seq_.append(cur_.func.attr)
+                cur_ = cur_.func.value
+            base_ok = (isinstance(cur_, ast.Name) and cur_.id in bnames) or (isinstance(cur_, ast.Call) and ast.unparse(cur_.func).split(".")[-1] == "LanguageContextBuilder")
+            if base_ok and "create" in seq_:
+                names = names + list(reversed(seq_))
     ok = "add_config_files" in names and names and names[-1] == "create"
     ctx.ob(R, f.module.rel, f"{f.short} :: builder.add_config_files(...) ... builder.create() last", ok, f"builder calls: {names}", f.node.lineno)
     acf_call = [c for c in ast.walk(f.node) if isinstance(c, ast.Call) and isinstance(c.func, ast.Attribute) and c.func.attr == "add_config_files"]
@@ -404,6 +415,30 @@ def rule_order(ctx, px):
     ok = len(ups) == 1 and len(ups[0][0].value.args) == 1 and isinstance(ups[0][0].value.args[0], ast.Subscript) \
         and ast.unparse(ups[0][0].value.args[0].value) == cps[0] and isinstance(ups[0][0].value.args[0].slice, ast.Name) \
         and ups[0][1] == [(f"{ups[0][0].value.args[0].slice.id} in {cps[0]}", True)]
+    if not ok and len(ups) == 1 and not ups[0][1] and len(ups[0][0].value.args) == 1 and isinstance(ups[0][0].value.args[0], ast.Call):
+        # options.update(<helper>(defaults, options)), unconditional: the helper hands back the whole group of the selected standard, or
+        # an empty mapping when the standard has no group
+        hc = ups[0][0].value.args[0]
+        cls_ = px.cls("nunavut.lang.cpp", "Language")
+        hname = hc.func.attr if isinstance(hc.func, ast.Attribute) else (hc.func.id if isinstance(hc.func, ast.Name) else None)
+        h = cls_.methods.get(hname) if hname else None
+        if h is not None and cps[0] in [ast.unparse(a_) for a_ in hc.args]:
+            hps = [a_.arg for a_ in h.node.args.args if a_.arg not in ("self", "cls")]
+            dpar = hps[[ast.unparse(a_) for a_ in hc.args].index(cps[0])]
+            good, n_ret = True, 0
+            for path in pyfront.enumerate_paths(h.node.body):
+                if path.outcome != "return":
+                    continue
+                n_ret += 1
+                rv = path.stmts[-1].value
+                terms = pyfront.guard_terms([c_ for c_ in path.conds if not isinstance(c_[0], str)])
+                if isinstance(rv, ast.Subscript) and ast.unparse(rv.value) == dpar and isinstance(rv.slice, ast.Name):
+                    continue          # defaults[<std>]: the whole group
+                empty = (isinstance(rv, ast.Dict) and not rv.keys) or (isinstance(rv, ast.Call) and ast.unparse(rv.func) == "dict" and not rv.args and not rv.keywords)
+                if empty and any((e.endswith(f" not in {dpar}") and p_) or (e.endswith(f" in {dpar}") and " not in " not in e and not p_) for e, p_ in terms):
+                    continue          # no group for the standard
+                good = False
+            ok = good and n_ret >= 2
     ctx.ob(R, cpp.module.rel, f"{cpp.short} :: the standard's option group is applied as a unit (options.update(defaults[std]))", ok,
            "" if ok else "per-standard defaults are applied partially or conditionally", cpp.node.lineno)
 
